@@ -79,8 +79,8 @@ Inductive pc :=
 | PR_bchead (qos : Z)                  (* _dispatch_queue_get_head *)
 | PR_cbc (qos : Z) (target : bool)     (* _dispatch_lane_class_barrier_complete's loop *)
 | PR_bcxor (qos : Z)                   (* DIRTY seen: xor (acquire), dx_wakeup(BARRIER_COMPLETE) again *)
-| PR_probe (qos : Z)                   (* dx_wakeup(CONSUME_2) without MAKE_DIRTY: the need_override wakeup of a push *)
-| PR_wake (qos : Z)
+| PA_oprobe (qos : Z)                   (* dx_wakeup(CONSUME_2) without MAKE_DIRTY: the need_override wakeup of a push *)
+| PA_owake (qos : Z)
 (* dispatch_activate *)
 | PC_rmw                               (* _dispatch_lane_resume(dq, true)'s loop *)
 | PCrash (tag : Z).                    (* DISPATCH_CLIENT_CRASH: 1 too many nested suspends, 2 over-resume, 3 invalid state *)
@@ -236,7 +236,7 @@ Definition gstep (rb : Z) (s : gst) (t : Z) : option gst :=
               lockh := lockh s1; side := side s1; sidelock := sidelock s1; susp_done := susp_done s1; rpre := rpre s1;
               sret := sret s1; plic := plic s1; pstarts := pstarts s1; act_called := act_called s1 |}
   | PA_link i was_empty qos ovr =>
-      Some (set_pc (set_lst s (link_id (lst s) i)) t (if was_empty then PA_probe qos else if ovr then PR_probe qos else Idle))
+      Some (set_pc (set_lst s (link_id (lst s) i)) t (if was_empty then PA_probe qos else if ovr then PA_oprobe qos else Idle))
   | PA_probe qos =>
       Some (match lst s with
             | [] => set_wakers (set_pc s t Idle) (remove_z t (wakers s))
@@ -345,7 +345,7 @@ Definition gstep (rb : Z) (s : gst) (t : Z) : option gst :=
             else if nz (Z.land (Z.lxor old new) IN_BARRIER)
                  then Some (set_lockh (set_pc s1 t (PR_bctail (f_dq_state_max_qos old))) (Some t))
                  else if negb (nz (f_dq_state_is_runnable new)) then Some (set_pc s1 t Idle)
-                      else Some (set_pc s1 t (PR_probe (f_dq_state_max_qos old)))
+                      else Some (set_pc s1 t (PA_oprobe (f_dq_state_max_qos old)))
       | NoCommit _ _ =>
           if nz (Z.land (st s) HAS_SIDE) then Some (set_pc s t PR_slock) else Some (set_pc s t (PCrash 2))
       | _ => None
@@ -390,8 +390,8 @@ Definition gstep (rb : Z) (s : gst) (t : Z) : option gst :=
       | _ => None
       end
   | PR_bcxor qos => Some (set_pc (set_st s (Z.lxor (st s) DIRTY)) t (PR_bctail qos))
-  | PR_probe qos => Some (set_pc s t (match lst s with [] => Idle | _ => PR_wake qos end))
-  | PR_wake qos =>
+  | PA_oprobe qos => Some (set_pc s t (match lst s with [] => Idle | _ => PA_owake qos end))
+  | PA_owake qos =>
       match wakeup_loop 0 qos 1 1 (st s) ENQUEUED with
       | Commit new _ =>
           let enq_set := negb (Z.land (Z.lxor (st s) new) ENQUEUED =? 0) in
